@@ -78,10 +78,13 @@ def run(ctx):
         c = ctx.replay['case']
         plan = {c.get('label', 'marked'): [(c['prog'], c['inputs'])]}
     else:
-        total = 90 if ctx.quick else 1500
-        wsum = sum(s[3] for s in SLICES.values())
+        import os
+        total = int(os.environ.get('VERIF_N', 90 if ctx.quick else 1500))
+        only = os.environ.get('VERIF_SLICES')          # development: comma separated labels
+        active = {k: v for k, v in SLICES.items() if not only or k in only.split(',')}
+        wsum = sum(s[3] for s in active.values())
         plan = {}
-        for label, (feats, tf, ap, w) in SLICES.items():
+        for label, (feats, tf, ap, w) in active.items():
             n = max(2, round(total * w / wsum))
             plan[label] = [X.generate(ctx.rng, feats, ap) for _ in range(n)]
     judged = 0
